@@ -51,10 +51,18 @@ def run(rep, tier, seed):
         cs = {"id": "c11-%d" % ci, "inputrc": ("set editing-mode vi\n" if mode.startswith("vi") else "") + opts, "w": W, "h": rng.choice([24, 24, 40]),
               "prompt": prompt, "binds": binds, "paniccmd": True, "screen": True, "sources": [{"name": "main", "kind": "mem", "lines": HISTORY}],
               "comp": {"cands": CANDS, "byword": True}, "setups": [], "sessions": [], "editor": "false"}
+        if rng.random() < 0.3:
+            # the terminal is not in its default state before the call (VMIN / VTIME / IXON / ECHOE)
+            cs["termios"], cs["vmin"], cs["vtime"] = True, rng.choice([0, 1, 4]), rng.choice([0, 5, 20])
+        sugg = rng.random() < 0.2
+        if sugg:
+            # a long history line whose autosuggestion wraps below the typed text
+            cs["inputrc"] += "set history-autosuggest on\n"
+            cs["sources"] = [{"name": "main", "kind": "mem", "lines": ["the quick brown fox jumps over the lazy dog again and again and again", "short one"]}]
         ms = []
         for _ in range(4):
             kind = rng.choice(EXITS)
-            buf = rng.choice(SHAPES)
+            buf = rng.choice(SHAPES) if not sugg else rng.choice(["the q", "the quick b", "sh", "the"])
             if kind == "eof":
                 buf = ""
             multi = kind == "multiline"
